@@ -1568,11 +1568,15 @@ class BDD(dd._abc.BDD[_Ref]):
                 f'node index {u} '
                 'is already used. '
                 f'{self._succ = }')
+        # find the next free integer first:
+        # this raises when the manager is full,
+        # before anything has been changed
+        min_free = self._next_free_int(u + 1)
         # add node
         self._pred[t] = u
         self._succ[u] = t
         self._ref[u] = 0
-        self._min_free = self._next_free_int(u)
+        self._min_free = min_free
         # increment reference counters
         self.incref(v)
         self.incref(w)
